@@ -370,6 +370,15 @@ func c13Setup() *c13Env {
 				}
 				return ss.SendMsg(mk(out, strings.Join(ts, "+")))
 			default: // Bidi
+				if role == "leave" {
+					// the handler returns at once and leaves a goroutine behind that keeps receiving -- what the proxy's
+					// pump does when a backend ends the call before the client has finished sending
+					go func() {
+						for ss.RecvMsg(dynamicpb.NewMessage(in)) == nil {
+						}
+					}()
+					return nil
+				}
 				for {
 					m := dynamicpb.NewMessage(in)
 					err := ss.RecvMsg(m)
@@ -687,7 +696,7 @@ func c13RunB(o *out, input string) {
 // ---------- C13S ----------
 
 var c13Kinds = []string{"http-json", "http-json-gzip", "http-proto", "http-up-gzip", "http-up", "http-down",
-	"grpc", "grpc-gzip", "grpc-bidi", "grpc-bidi-gzip", "grpc-web", "blob-get", "blob-put", "grpc-cancel", "proxy-unary", "proxy-json", "http-path", "proxy-bidi", "proxy-bidi-fail", "proxy-bidi-gzip"}
+	"grpc", "grpc-gzip", "grpc-bidi", "grpc-bidi-gzip", "grpc-web", "blob-get", "blob-put", "grpc-cancel", "proxy-unary", "proxy-json", "http-path", "proxy-bidi", "proxy-bidi-fail", "proxy-bidi-gzip", "grpc-leftover"}
 
 func (e *c13Env) post(path, ct, accept string, body []byte, gz bool) ([]byte, int, error) {
 	if gz {
@@ -708,6 +717,26 @@ func (e *c13Env) post(path, ct, accept string, body []byte, gz bool) ([]byte, in
 	defer rsp.Body.Close()
 	b, err := io.ReadAll(rsp.Body)
 	return b, rsp.StatusCode, err
+}
+
+// a request body of empty gRPC messages without end, until it is closed
+type c13Endless struct{ closed chan struct{} }
+
+func (b *c13Endless) Read(p []byte) (int, error) {
+	select {
+	case <-b.closed:
+		return 0, io.ErrClosedPipe
+	default:
+	}
+	return copy(p, []byte{0, 0, 0, 0, 0}), nil
+}
+func (b *c13Endless) Close() error {
+	select {
+	case <-b.closed:
+	default:
+		close(b.closed)
+	}
+	return nil
 }
 
 func jsonOf(t string) []byte { b, _ := protojson.Marshal(&testpb.Message{Text: t}); return b }
@@ -865,6 +894,16 @@ func (e *c13Env) one(kind, id string, r *rng) string {
 		if err := <-sendErr; err != nil {
 			return fmt.Sprintf("%s id=%s send err %v", kind, id, err)
 		}
+		return ""
+	case "grpc-leftover":
+		// a gRPC bidi call, in process, whose request body never ends and whose handler returns while a goroutine it
+		// started is still receiving (judged by the race detector only)
+		req := httptest.NewRequest("POST", "/verif.c13.Iso/Bidi", &c13Endless{closed: make(chan struct{})})
+		req.ProtoMajor, req.ProtoMinor = 2, 0
+		req.Header.Set("Content-Type", "application/grpc")
+		req.Header.Set("X-C13-Role", "leave")
+		req.ContentLength = -1
+		e.mux.ServeHTTP(httptest.NewRecorder(), req)
 		return ""
 	case "proxy-bidi", "proxy-bidi-fail":
 		// a proxied bidi stream; in the failing variant the backend ends the call with its own status
@@ -1111,6 +1150,8 @@ func c13Gen(o *out, r *rng, tier string) {
 		c13Stress(o, "blob-put", 8, 60, seed+2)
 		c13Stress(o, "grpc-bidi-gzip", 8, 40, seed+3)
 		c13Stress(o, "grpc-cancel", 8, 40, seed+4)
+		c13Stress(o, "grpc-leftover", 4, 60, seed+5)
+		c13Stress(o, "proxy-bidi-fail", 8, 40, seed+6)
 		return
 	case "race-thorough":
 		for i := uint64(0); i < 6; i++ {
